@@ -9,6 +9,7 @@ package main
 import (
 	"fmt"
 	"go/token"
+	"go/types"
 	"sort"
 	"strings"
 
@@ -55,11 +56,50 @@ var goSites = map[string]tabEntry{
 	"pebbles.(*Gateway).subscriptionHandler": {2, "one heartbeat per connection_init (all cancelled when the handler returns) and one Listen goroutine per start; a start that reuses an id first stops the entry it replaces (repair bf39264, rule R8e), so every Listen stays reachable for stop/terminate/teardown"},
 }
 
+// callFamily: other entry points that do what a listed callee does; a call of any of them is
+// counted as a call of the listed one (second table audit: a retry through Client.Post and a
+// random routing decision through math/rand went past entries that froze one name only).
+var callFamily = map[string]string{
+	"(*net/http.Client).Post": "(*net/http.Client).Do", "(*net/http.Client).Get": "(*net/http.Client).Do",
+	"(*net/http.Client).Head": "(*net/http.Client).Do", "(*net/http.Client).PostForm": "(*net/http.Client).Do",
+	"net/http.Post": "(*net/http.Client).Do", "net/http.Get": "(*net/http.Client).Do", "net/http.Head": "(*net/http.Client).Do",
+	"net/http.PostForm": "(*net/http.Client).Do", "(*net/http.Transport).RoundTrip": "(*net/http.Client).Do",
+	"net/http.RoundTripper.RoundTrip": "(*net/http.Client).Do",
+	"github.com/gobwas/ws.Dial":       "(github.com/gobwas/ws.Dialer).Dial", "net.Dial": "(github.com/gobwas/ws.Dialer).Dial",
+	"net.DialTimeout": "(github.com/gobwas/ws.Dialer).Dial", "(*net.Dialer).Dial": "(github.com/gobwas/ws.Dialer).Dial",
+	"(*net.Dialer).DialContext": "(github.com/gobwas/ws.Dialer).Dial", "crypto/tls.Dial": "(github.com/gobwas/ws.Dialer).Dial",
+	"time.Since": "time.Now", "time.Until": "time.Now",
+}
+
+// familyOf maps an external callee to the listed callee it stands for. Every function of the
+// random-number packages is a source of run-to-run variation like the clock.
+func familyOf(callee string) string {
+	if c, ok := callFamily[callee]; ok {
+		return c
+	}
+	for _, p := range []string{"math/rand.", "math/rand/v2.", "crypto/rand.", "(*math/rand.Rand).", "(*math/rand/v2.Rand)."} {
+		if strings.HasPrefix(callee, p) {
+			return "time.Now"
+		}
+	}
+	return callee
+}
+
 func ruleCallers(filter func(callee string) bool) ruleFn {
 	return func(r *Run) {
 		// collect actual callers
 		actual := map[string]map[string]ssa.CallInstruction{}
+		via := map[ssa.CallInstruction]string{}
 		note := func(callee, caller string, site ssa.CallInstruction) {
+			if f := familyOf(callee); f != callee {
+				via[site] = callee
+				if f != "time.Now" {
+					// the single send / dial point uses the listed call itself: another entry
+					// point is a second way out, whoever makes the call
+					caller = caller + " (through " + callee + ")"
+				}
+				callee = f
+			}
 			if _, ok := whoMayCall[callee]; !ok {
 				return
 			}
@@ -129,7 +169,11 @@ func ruleCallers(filter func(callee string) bool) ruleFn {
 					found++
 					r.OK("R4a", c, "calls "+callee, r.P.pos(site.Pos()), "listed caller: "+spec.why)
 				} else {
-					r.Bad("R4a", c, "calls "+callee, r.P.pos(site.Pos()), "new caller of "+callee+"; allowed: "+strings.Join(spec.callers, ", ")+" — "+spec.why)
+					what := callee
+					if via[site] != "" {
+						what = callee + " (here through " + via[site] + ", which does the same)"
+					}
+					r.Bad("R4a", c, "calls "+callee, r.P.pos(site.Pos()), "new caller of "+what+"; allowed: "+strings.Join(spec.callers, ", ")+" — "+spec.why)
 				}
 			}
 			if found == 0 {
@@ -642,13 +686,33 @@ func onlyMeasuresDuration(fn *ssa.Function) bool {
 		n := calleeName(c)
 		return n == "time.Since" || n == "(time.Time).Sub"
 	}
+	// durationOK: the measured duration (and everything computed from it: arithmetic,
+	// conversions, time.Duration methods, results of calls that received it) only flows into
+	// calls — a hook, a logger, a formatter — and never into a comparison, a branch, a return
+	// value, a channel or a heap object. A whitelist: any use not listed here fails. (Second table
+	// audit: `time.Since(t).Milliseconds() > 20` went through a version that only looked at the
+	// direct uses of the duration.)
 	var durationOK func(v ssa.Value, depth int) bool
 	durationOK = func(v ssa.Value, depth int) bool {
-		if v.Referrers() == nil || depth > 4 {
-			return depth <= 4
+		if depth > 8 {
+			return false
+		}
+		if v.Referrers() == nil {
+			return true
+		}
+		argsOK := func(c *ssa.CallCommon, res ssa.Value) bool {
+			if sc := c.StaticCallee(); sc != nil && inModule(sc) && sc.Blocks != nil {
+				for i, a := range c.Args {
+					if a == v && (i >= len(sc.Params) || !durationOK(sc.Params[i], depth+1)) {
+						return false
+					}
+				}
+			}
+			return res == nil || durationOK(res, depth+1)
 		}
 		for _, ref := range *v.Referrers() {
 			switch x := ref.(type) {
+			case *ssa.DebugRef:
 			case *ssa.BinOp:
 				switch x.Op {
 				case token.LSS, token.LEQ, token.GTR, token.GEQ, token.EQL, token.NEQ:
@@ -657,7 +721,114 @@ func onlyMeasuresDuration(fn *ssa.Function) bool {
 				if !durationOK(x, depth+1) {
 					return false
 				}
-			case *ssa.If:
+			case *ssa.Convert:
+				if !durationOK(x, depth+1) {
+					return false
+				}
+			case *ssa.ChangeType:
+				if !durationOK(x, depth+1) {
+					return false
+				}
+			case *ssa.MakeInterface:
+				if !durationOK(x, depth+1) {
+					return false
+				}
+			case *ssa.Phi:
+				if !durationOK(x, depth+1) {
+					return false
+				}
+			case *ssa.Extract:
+				if !durationOK(x, depth+1) {
+					return false
+				}
+			case *ssa.Slice:
+				if !durationOK(x, depth+1) {
+					return false
+				}
+			case *ssa.Call:
+				if x.Call.Value == v {
+					return false // the value itself is called
+				}
+				if !argsOK(&x.Call, x) {
+					return false
+				}
+			case *ssa.Defer:
+				if !argsOK(&x.Call, nil) {
+					return false
+				}
+			case *ssa.Go:
+				if !argsOK(&x.Call, nil) {
+					return false
+				}
+			case *ssa.Store:
+				// a spill into a local cell, or into the argument array of a variadic call
+				if x.Val != v {
+					return false
+				}
+				var cell *ssa.Alloc
+				field := -1
+				switch a := x.Addr.(type) {
+				case *ssa.Alloc:
+					cell = a
+				case *ssa.IndexAddr:
+					cell, _ = a.X.(*ssa.Alloc)
+				case *ssa.FieldAddr:
+					// a field of a local record (the argument of a hook)
+					cell, _ = a.X.(*ssa.Alloc)
+					field = a.Field
+				}
+				if cell == nil {
+					return false
+				}
+				for _, r2 := range *cell.Referrers() {
+					switch y := r2.(type) {
+					case *ssa.Store, *ssa.DebugRef, *ssa.IndexAddr:
+					case *ssa.FieldAddr:
+						if y.Field != field {
+							continue
+						}
+						for _, r3 := range *y.Referrers() {
+							switch z := r3.(type) {
+							case *ssa.Store, *ssa.DebugRef:
+							case *ssa.UnOp:
+								if !durationOK(z, depth+1) {
+									return false
+								}
+							default:
+								return false
+							}
+						}
+					case *ssa.UnOp:
+						if !durationOK(y, depth+1) {
+							return false
+						}
+					case *ssa.Slice:
+						if !durationOK(y, depth+1) {
+							return false
+						}
+					case *ssa.MakeClosure:
+						// captured by a (deferred) closure: the loads inside it
+						if fnc, ok := y.Fn.(*ssa.Function); ok {
+							for k, b := range y.Bindings {
+								if b == ssa.Value(cell) && k < len(fnc.FreeVars) {
+									for _, r3 := range *fnc.FreeVars[k].Referrers() {
+										if ld, ok := r3.(*ssa.UnOp); ok {
+											if !durationOK(ld, depth+1) {
+												return false
+											}
+										} else if _, ok := r3.(*ssa.DebugRef); !ok {
+											return false
+										}
+									}
+								}
+							}
+						}
+					default:
+						return false
+					}
+				}
+			default:
+				// If, Return, Send, MapUpdate, a store into a heap object, ...
 				return false
 			}
 		}
@@ -715,13 +886,101 @@ func onlyMeasuresDuration(fn *ssa.Function) bool {
 	n := 0
 	for _, ins := range allInstrs(fn) {
 		c, ok := ins.(*ssa.Call)
-		if !ok || calleeName(&c.Call) != "time.Now" {
+		if !ok {
 			continue
 		}
-		n++
-		if !timeOK(c, 0) {
-			return false
+		switch calleeName(&c.Call) {
+		case "time.Now":
+			n++
+			if !timeOK(c, 0) {
+				return false
+			}
+		case "time.Since", "time.Until":
+			// a duration measured from a start handed in from elsewhere
+			n++
+			if !durationOK(c, 0) {
+				return false
+			}
+		default:
+			if familyOf(calleeName(&c.Call)) == "time.Now" {
+				return false // a random source
+			}
 		}
 	}
 	return n > 0
+}
+
+// ruleRoutingTableWrites (R4a.route): the routing table (merger.TypeURLMap and the TypeProps it
+// points to) is written by its own setter methods only — the ones whoMayCall confines to the
+// merge. TypeURLMap is a plain map type, so a direct store needs none of those methods (second
+// table audit: a `tp.Fields[field] = url` on the request path raced and changed routing).
+func ruleRoutingTableWrites(r *Run) {
+	const rule = "R4a.route"
+	setters := map[string]bool{}
+	for k := range whoMayCall {
+		if strings.HasPrefix(k, "merger.(TypeURLMap).Set") {
+			setters[k] = true
+		}
+	}
+	isProps := func(t types.Type) bool { return strings.HasSuffix(namedOf(t), "merger.TypeProps") }
+	isTable := func(t types.Type) bool { return strings.HasSuffix(namedOf(t), "merger.TypeURLMap") }
+	fromProps := func(v ssa.Value) bool {
+		ld, ok := unwrap(v).(*ssa.UnOp)
+		if !ok || ld.Op != token.MUL {
+			return false
+		}
+		fa, ok := ld.X.(*ssa.FieldAddr)
+		return ok && isProps(fa.X.Type())
+	}
+	n := 0
+	for _, fn := range r.P.Funcs {
+		for _, ins := range allInstrs(fn) {
+			what := ""
+			switch x := ins.(type) {
+			case *ssa.MapUpdate:
+				if isTable(x.Map.Type()) {
+					what = "entry of the routing table"
+				} else if fromProps(x.Map) {
+					what = "route of a field"
+				}
+			case *ssa.Store:
+				if fa, ok := x.Addr.(*ssa.FieldAddr); ok && isProps(fa.X.Type()) {
+					if al, fresh := fa.X.(*ssa.Alloc); fresh && al.Parent() == fn {
+						continue
+					}
+					what = "TypeProps." + fieldOf(fa).Name()
+				}
+			case ssa.CallInstruction:
+				if b, ok := x.Common().Value.(*ssa.Builtin); ok && b.Name() == "delete" && len(x.Common().Args) > 0 {
+					if isTable(x.Common().Args[0].Type()) || fromProps(x.Common().Args[0]) {
+						what = "deletion from the routing table"
+					}
+				}
+			}
+			if what == "" {
+				continue
+			}
+			n++
+			// a setter, or a helper that only setters call (a shared "entry for this type" helper)
+			var within func(f *ssa.Function, depth int) bool
+			within = func(f *ssa.Function, depth int) bool {
+				if setters[fnName(f)] {
+					return true
+				}
+				if depth > 3 || len(r.P.CG.In[f]) == 0 {
+					return false
+				}
+				for _, e := range r.P.CG.In[f] {
+					if e.Kind != "static" || !within(topFn(e.Caller), depth+1) {
+						return false
+					}
+				}
+				return true
+			}
+			r.Check(within(topFn(fn), 0), rule, fnName(fn), "write "+what, r.P.pos(ins.Pos()),
+				"inside a setter method of the routing table (callers confined to the merge by R4a)",
+				"the routing table is written outside its setter methods: it is shared by all requests and read without a lock, so a write on the request path races with concurrent readers and changes where later requests are sent")
+		}
+	}
+	r.AtLeast(rule, "writes to the routing table", n, 3)
 }
